@@ -76,6 +76,7 @@ type drv struct {
 	kmu          sync.Mutex
 	installs     int
 	pinned       bool
+	sharedOpts   *opt.Options
 	fmu          sync.Mutex
 }
 
@@ -324,7 +325,17 @@ func (d *drv) open(ro bool) error {
 		}
 		o.FilterBaseLg = []int{0, 3, 11}[d.rng.Intn(3)]
 	}
-	db, err := leveldb.Open(d.stor, &o)
+	op := &o
+	if d.mode == "c16" {
+		// applications keep one Options value and pass it to every Open
+		if d.sharedOpts != nil && d.rng.Intn(2) == 0 {
+			op = d.sharedOpts
+			op.ReadOnly = ro
+		} else {
+			d.sharedOpts = op
+		}
+	}
+	db, err := leveldb.Open(d.stor, op)
 	if err != nil {
 		return err
 	}
@@ -1446,6 +1457,23 @@ func (d *drv) step() {
 				d.writeSome()
 				return
 			}
+			if d.mode == "c20" && d.rng.Intn(3) == 0 {
+				// values returned by Transaction.Get are private copies too
+				d.doTxOpen()
+				if d.tx != nil {
+					for i := 0; i < 2+d.rng.Intn(6) && d.tx != nil; i++ {
+						d.doTxWrite()
+						if d.tx != nil {
+							d.doTxRead(d.rng.Intn(n))
+							d.doTxRead(d.rng.Intn(n))
+						}
+					}
+					if d.tx != nil {
+						d.doTxEnd(d.rng.Intn(4) != 0)
+					}
+				}
+				return
+			}
 			// c16 / c20 also exercise iterators
 			if h, it := d.anyIter(); it != nil && d.rng.Intn(8) != 0 {
 				d.walk(h, it, 1+d.rng.Intn(6))
@@ -1647,6 +1675,15 @@ func main() {
 		d.step()
 	}
 	// final sweep: every key, then a full scan through a fresh iterator
+	if *mode == "c08" {
+		// the sweep is not part of the fault experiment: stop the faults first (a position that was never
+		// reached must not fire now) and get rid of a persistent error state
+		d.heal("healed-for-final-sweep")
+		if d.tx != nil {
+			d.doTxEnd(false)
+		}
+		d.doReopen(false)
+	}
 	if d.tx != nil {
 		d.doTxEnd(d.rng.Intn(2) == 0)
 	}
